@@ -207,9 +207,21 @@ def run(ctx: Ctx):
     gi, it_, fr_ = run_m(ek, "__getitem__")
     ip = gi.params()[1]
     r = fr_.ret
-    ok = isinstance(r, vg.S) and r.op == "store" and r.args[0].op == "sub" and is_selfattr(r.args[0].args[0], "data") and is_param(r.args[0].args[1], ip) and is_selfattr(r.args[1], "key_name") \
+    base = r.args[0] if isinstance(r, vg.S) and r.op == "store" else None
+    copied = False
+    if base is not None:
+        # a fresh mapping: x.copy(), dict(x), copy.copy(x), {**x}
+        if base.op == "meth" and base.args[1] in ("copy", "clone"):
+            base, copied = base.args[0], True
+        elif base.op == "call" and (nf._fn(base) in ("dict", "copy.copy", "copy.deepcopy") or vg.show(base.args[0], 2) in ("dict",)) and len(base.args) == 2:
+            base, copied = base.args[1], True
+    ok = base is not None and base.op == "sub" and is_selfattr(base.args[0], "data") and is_param(base.args[1], ip) and is_selfattr(r.args[1], "key_name") \
         and r.args[2].op == "sub" and is_selfattr(r.args[2].args[0], "extra") and is_param(r.args[2].args[1], ip)
-    ctx.ob("C17.c", "ExtraKeyDataset.__getitem__:same-index", ok, gi.loc, "returns data[idx] with data[idx][key_name] = extra[idx]: one index for both", construct="ExtraKeyDataset.__getitem__:index")
+    ctx.ob("C17.c", "ExtraKeyDataset.__getitem__:same-index", ok, gi.loc, "returns (a copy of) data[idx] with [key_name] = extra[idx]: one index for both", construct="ExtraKeyDataset.__getitem__:index")
+    ctx.ob("C17.c", "ExtraKeyDataset.__getitem__:no-write-through", bool(ok and copied), gi.loc,
+           "the extra key is written into a fresh copy of the item" if copied else
+           "the extra key is assigned on self.data[idx] itself; self.data is the wrapped dataset's own list of item dicts (ExtraKeyDataset.__init__ stores dataset.data), so reading the "
+           "wrapped set changes what the original dataset returns afterwards (it gains the extra key)", construct="ExtraKeyDataset.__getitem__:write-through")
     ini, it_, fr_ = run_m(ek, "__init__")
     pd, pe = ini.params()[1], ini.params()[2]
     d_ = it_.selfattrs.get("data")
@@ -360,6 +372,51 @@ def run(ctx: Ctx):
         d0 = dls[0].args[0] if dls[0].args else kw(dls[0], "dataset")
         ok = isinstance(sh, ast.Name) and sh.id == "shuffle" and isinstance(d0, ast.Name) and d0.id == dsp
     ctx.ob("C17.a", "RL4COLitModule._dataloader_single", ok, fi.loc, "the (already wrapped) dataset it is given is what the loader iterates; shuffling happens inside the loader over (instance, extra) items", construct="RL4COLitModule._dataloader_single")
+    epoch_end_order(ctx)
+
+
+def epoch_end_order(ctx: Ctx):
+    """C17.e the training set of the next epoch carries the values of the baseline that will be used with it: in
+    REINFORCE.on_train_epoch_end the baseline is challenged / advanced (`baseline.epoch_callback`) BEFORE the base class
+    regenerates the training set and wraps it with `self.baseline.wrap_dataset`.  The other order attaches the greedy values of
+    the baseline policy that has just been replaced (or, right after the warm-up epoch, no values at all)."""
+    path = "rl4co/models/rl/reinforce/reinforce.py"
+    cls = ctx.repo.get_class(path, "REINFORCE")
+    fi = cls.methods.get("on_train_epoch_end")
+    if fi is None:
+        raise AnalysisError("REINFORCE.on_train_epoch_end not found")
+    ctx.fn(fi)
+    cb, sup = [], []
+    for n in ast.walk(fi.node):
+        if isinstance(n, ast.Call) and isinstance(n.func, ast.Attribute):
+            if n.func.attr == "epoch_callback" and "baseline" in ast.unparse(n.func.value):
+                cb.append(n)
+            if n.func.attr == "on_train_epoch_end" and isinstance(n.func.value, ast.Call) and getattr(n.func.value.func, "id", "") == "super":
+                sup.append(n)
+    if len(cb) != 1 or len(sup) != 1:
+        raise AnalysisError(f"REINFORCE.on_train_epoch_end: expected one baseline.epoch_callback and one super() call ({len(cb)}, {len(sup)})")
+    # statement order on one straight path: both are top-level statements of the method body
+    top = {id(st): i for i, st in enumerate(fi.node.body)}
+
+    def stmt_index(call):
+        for i, st in enumerate(fi.node.body):
+            if any(x is call for x in ast.walk(st)):
+                return i
+        return None
+    i_cb, i_sup = stmt_index(cb[0]), stmt_index(sup[0])
+    ok = i_cb is not None and i_sup is not None and i_cb < i_sup
+    ctx.ob("C17.e", "REINFORCE.on_train_epoch_end:baseline-updated-before-rewrap", ok, fi.loc,
+           "baseline.epoch_callback(...) precedes super().on_train_epoch_end() (which regenerates and wraps the next training set)" if ok else
+           "super().on_train_epoch_end() runs before baseline.epoch_callback(...): the next epoch's data is wrapped with the values of the baseline that is about to be replaced",
+           construct="REINFORCE.on_train_epoch_end:order")
+    # and the base class does wrap the regenerated set through self.wrap_dataset
+    base = ctx.repo.get_class("rl4co/models/rl/common/base.py", "RL4COLitModule")
+    bf = base.methods.get("on_train_epoch_end")
+    ctx.fn(bf)
+    wraps = any(isinstance(n, ast.Assign) and any(isinstance(t, ast.Attribute) and t.attr == "train_dataset" for t in n.targets)
+                and isinstance(n.value, ast.Call) and isinstance(n.value.func, ast.Attribute) and n.value.func.attr == "wrap_dataset" for n in ast.walk(bf.node))
+    ctx.ob("C17.e", "RL4COLitModule.on_train_epoch_end:regenerated-set-is-wrapped", wraps, bf.loc,
+           "self.train_dataset = self.wrap_dataset(<freshly generated set>)", construct="RL4COLitModule.on_train_epoch_end:wrap")
 
 
 def run_thorough(ctx: Ctx):
